@@ -47,9 +47,16 @@ def run_case(case):
             "int2": _c(int("%d%d" % vp)),
             "str2rev": _c("%d%d" % (vp[1], vp[0])),
         }
+        import numpy
+        for name, conv in (("np.int64", numpy.int64), ("np.int32", numpy.int32), ("np.intp", numpy.intp)):
+            spell["4" + name] = _c(*[conv(x) for x in t])
+            spell["voigt2" + name] = _c(*[conv(x) for x in vp])
         for name, s in spell.items():
             if s != k or hash(s) != hash(k):
                 viol.append(V(f"c10:spelling:{name}", f"{name} spelling of {t} gives {s!r} != {k!r}"))
+            elif (s.multiplicity != k.multiplicity or tuple(s.voigt) != tuple(k.voigt) or tuple(s.standard) != tuple(k.standard)
+                  or s.calc_type != k.calc_type or (s.is_longitudinal, s.is_off_diagonal, s.is_shear) != (k.is_longitudinal, k.is_off_diagonal, k.is_shear)):
+                viol.append(V(f"c10:spelling-attributes:{name}", f"{name} spelling of {t} equals {k!r} but reports multiplicity {s.multiplicity} / views {s.voigt} {s.standard} instead of {k.multiplicity} / {k.voigt} {k.standard}"))
         if tuple(k.voigt) != vp:
             viol.append(V("c10:voigt-view", f"c_{t}.voigt={k.voigt} expected {vp}"))
         if tuple(k.standard) != R.canonical_standard(t):
@@ -116,7 +123,9 @@ def run_case(case):
         v = R.S2V[(i, j)]
         e = _e(i, j)
         exp = R.V2S[v]
-        for name, s in {"rev": _e(j, i), "voigt": _e(v), "str2": _e(f"{i}{j}"), "int2": _e(int(f"{i}{j}")), "str1": _e(str(v))}.items():
+        import numpy
+        for name, s in {"rev": _e(j, i), "voigt": _e(v), "str2": _e(f"{i}{j}"), "int2": _e(int(f"{i}{j}")), "str1": _e(str(v)),
+                        "np2": _e(numpy.int64(i), numpy.int64(j))}.items():
             if s != e or hash(s) != hash(e):
                 viol.append(V(f"c10:strain-spelling:{name}", f"e_ spelling {name} of ({i},{j}) -> {s!r} != {e!r}"))
         if e.voigt != v or tuple(e.standard) != exp or e.v != v or tuple(e.s) != exp:
@@ -139,6 +148,21 @@ def run_case(case):
 def reject_cases():
     out = []
     base4, base2 = (1, 2, 2, 3), (2, 5)
+    for a in (-1, 0, 4, 5, 6, 7):
+        for b in (-1, 0, 1, 2, 3, 4, 5, 6, 7):
+            for pair in ([a, b], [b, a]):
+                out.append({"kind": "reject", "what": "e", "args": pair})
+                out.append({"kind": "reject", "what": "c", "args": pair + [1, 2]})
+                out.append({"kind": "reject", "what": "c", "args": [1, 2] + pair})
+                if all(0 <= x <= 9 for x in pair):
+                    out.append({"kind": "reject", "what": "e", "args": ["%d%d" % tuple(pair)]})
+                    out.append({"kind": "reject", "what": "c", "args": ["%d%d12" % tuple(pair)]})
+                    out.append({"kind": "reject", "what": "c", "args": ["12%d%d" % tuple(pair)]})
+    for a in (-1, 0, 7, 8):
+        for b in range(-1, 9):
+            for pair in ([a, b], [b, a]):
+                out.append({"kind": "reject", "what": "c", "args": pair})
+        out.append({"kind": "reject", "what": "e", "args": [a]})
     for pos in range(4):
         for bad in (0, 4):
             t = list(base4)
